@@ -337,6 +337,8 @@ class GenSource:
             return None
         self.n += 1
         rng = self.rng
+        if getattr(self, "pending", None):
+            return self.pending.pop(0)  # scripted continuation of an interesting prefix
         live = w.live_objs()
         if not live:
             return self.construct(w)
@@ -373,8 +375,47 @@ class GenSource:
             return {"buf": b, "how": "offset", "align": rng.random() < 0.5, "pad": rng.choice([0, 0, 8, 24])}
         return {"buf": b, "how": rng.choice(["default", "default", "aligned", "packed"])}
 
+    def _pair_scenario(self, w):
+        """Two array classes with the same item type and rank, one of them of static shape: an object
+        of the other class with exactly that shape (built from data or from dimensions), then the
+        static one constructed from it — through its constructor handle or through a rebuilt view."""
+        rng = self.rng
+        sc = w.schema
+        pairs = []
+        for ts, tys in enumerate(sc):
+            if tys["k"] != "array" or sc[tys["item"]]["k"] != "sc" or any(d is None for d in tys["shape"]) or 0 in tys["shape"]:
+                continue
+            for td, tyd in enumerate(sc):
+                if td != ts and tyd["k"] == "array" and tyd["item"] == tys["item"] and len(tyd["shape"]) == len(tys["shape"]) and any(d is None for d in tyd["shape"]) and all(d is None or d == n for d, n in zip(tyd["shape"], tys["shape"])):
+                    pairs.append((ts, td))
+        if not pairs:
+            return None
+        ts, td = rng.choice(pairs)
+        shape = list(sc[ts]["shape"])
+        n = 1
+        for d in shape:
+            n *= d
+        if n > 60:
+            return None
+        b = pick_buf(w, rng)
+        it = sc[sc[ts]["item"]]["t"]
+        if rng.random() < 0.3:
+            v = {"dims": [shape[i] for i, d in enumerate(sc[td]["shape"]) if d is None], "shape": shape}
+        else:
+            v = {"l": [M.gen_scalar(rng, it) for _ in range(n)], "shape": shape}
+        sid = self.new_id()
+        return [
+            {"op": "construct", "type": td, "value": v, "place": {"buf": b, "how": "default"}, "form": "single", "id": sid},
+            {"op": "construct", "type": ts, "value": {"obj": sid, "view": rng.random() < 0.5}, "place": self.place(w), "form": "single", "id": self.new_id()},
+        ]
+
     def construct(self, w):
         rng = self.rng
+        if self.sw.get("xobj_input") and rng.random() < 0.06 and not getattr(self, "pending", None):
+            sc_ = self._pair_scenario(w)
+            if sc_:
+                self.pending = sc_[1:]
+                return sc_[0]
         tops = self.top_types(w)
         comp = [t for t in tops if w.schema[t]["k"] != "str"]
         t = rng.choice(comp[-6:]) if comp and rng.random() < 0.85 else rng.choice(tops)
